@@ -86,20 +86,26 @@ impl Database {
                              * 2. @todo chaing multiple changes to test behavior to
                              *
                              */
+                            let pendding_conflict = if old_version == IN_CONFLICT_RESOLUTION_KEY_VERSION {
+                                self.list_conflicts_keys(&change.key)
+                            } else {
+                                vec![]
+                            };
                             let (old_value_or_conflict_key, change_version): (String, i32) =
-                                if old_version == IN_CONFLICT_RESOLUTION_KEY_VERSION {
-                                    let pendding_conflict = self.list_conflicts_keys(&change.key);
-                                    log::debug!(
-                                        "Conflict queue size for the key {} : {}",
-                                        change.key,
-                                        pendding_conflict.len()
-                                    );
-                                    (
-                                        pendding_conflict.last().unwrap().to_string(),
-                                        version.saturating_add(pendding_conflict.len() as i32),
-                                    )
-                                } else {
-                                    (old_value.to_string(), old_version)
+                                match pendding_conflict.last() {
+                                    Some(last_conflict) => {
+                                        log::debug!(
+                                            "Conflict queue size for the key {} : {}",
+                                            change.key,
+                                            pendding_conflict.len()
+                                        );
+                                        (
+                                            last_conflict.to_string(),
+                                            version.saturating_add(pendding_conflict.len() as i32),
+                                        )
+                                    }
+                                    // First conflict of the key, or a marker without any record
+                                    None => (old_value.to_string(), old_version),
                                 };
                             log::info!("Sending conflict to the arbiter {}", key);
                             let resolve_message = format!(
